@@ -171,7 +171,9 @@ def fuaCont (d : Dec) (seq : UInt16) (b1 : UInt8) (data : Bytes) : Dec × NRes :
     let sz := d.fragmentsSize + data.length
     if sz > maxAU then (d.resetFragments, .err)
     else
-      let d1 : Dec := { d with fragmentsSize := sz, fragments := d.fragments ++ [data],
+      -- /repo fix fc590d9: a fragment without data is accepted but not stored
+      let d1 : Dec := { d with fragmentsSize := sz,
+                               fragments := pushFrag d.fragments data,
                                fragmentNextSeqNum := d.fragmentNextSeqNum + 1 }
       if (b1 >>> 6) &&& 0x01 ≠ 1 then (d1, .more)
       else (d1.resetFragments, .nalus (splitNALUs (joinFragments d1.fragments d1.fragmentsSize)))
